@@ -6,7 +6,7 @@ def run(ctx):
                 "fields, skip count, revalidation, rejection and cleanup-only behaviour judged by TLC (C10.*); non-trivial = restart-related step")
     ctx.assumptions += ["transport adapter behaviour on reopen (cancel-before-request, pending extensions) is checked on the real adapter by the gstx harness"]
     stages.mgr_family(ctx, ["C10."], ["all"], lambda s: s["stim"]["kind"] in ("Restart", "RecvRestartExisting") or s["stim"]["msg"]["kind"] in ("Restart", "RestartExisting"),
-                      quick_n=5000, invariants=["M_C10_Identity", "M_C10_Skip"])
+                      quick_n=5000, invariants=["M_C10_Identity", "M_C10_Skip"], keep=lambda l: any(k in l for k in ('"kind":"Restart"', '"kind":"RecvRestartExisting"', '"kind":"RestartExisting"')))
     # transport-adapter part on the REAL graphsync adapter (virtual time): cancel-before-request, skip count, pending messages once
     b = ctx.go_bin("gstx")
     out = ctx.path("reopenobs.ndjson")
